@@ -1,108 +1,144 @@
-"""Glue between the check driver and Engine S (/verif/smt)."""
+"""Glue between the check driver and Engine S (/verif/smt).
+
+MIR is dumped once per run (from /repo's current sources); kernels are then executed and
+discharged in a pool of worker processes (each worker owns its z3 context)."""
+import concurrent.futures as cf
 import json
 import os
+import pickle
 import sys
 import time
 
-from .common import VERIF, REPLAY_DIR, seed, log
+from .common import VERIF, REPLAY_DIR, WORK, seed, log
 
 sys.path.insert(0, os.path.join(VERIF, "smt"))
 
+_P = None
+_FEATS = ()
 
-def run_obligations(prop, tier, plan):
-    """plan: {"features": (...), "kernels": [kernel ids], "validate": n_cases}"""
+
+def _init_worker(pickle_path, feats):
+    global _P, _FEATS
+    sys.path.insert(0, os.path.join(VERIF, "smt"))
+    with open(pickle_path, "rb") as f:
+        _P = pickle.load(f)
+    _P._const_cache = {}
+    _FEATS = tuple(feats)
+
+
+def _run_kernel(args):
+    kid, prop, sd, solver_threads = args
     import engine
     import kernels
     from mirexec import Unsupported
-
-    out = {"obligations": [], "traces_validated": 0, "errors": []}
-    feats = tuple(plan.get("features", ()))
-    t0 = time.time()
+    P, feats = _P, _FEATS
+    k = kernels.get(kid)
+    rec = {"id": kid, "desc": k.desc, "queries": 0, "solver_s": 0.0, "status": "unsat", "solver": "",
+           "functions": k.funcs, "witness_ok": True, "validated": 0}
+    t1 = time.time()
     try:
-        P = engine.dump_mir(feats)
+        res = k.symbolic(P)
+    except Unsupported as e:
+        rec["status"] = "unsupported MIR construct: %s" % e
+        return rec
     except Exception as e:  # noqa
-        out["errors"].append("MIR dump failed: %s" % str(e)[-800:])
-        return out
-    log("[%s] engine S: MIR dumped from /repo in %.1fs (%d items)" % (prop, time.time() - t0, len(P.fns)))
-    for kid in plan["kernels"]:
-        k = kernels.KERNELS[kid]
-        rec = {"id": kid, "desc": k.desc, "queries": 0, "solver_s": 0.0, "status": "unsat", "solver": "",
-               "functions": k.funcs, "witness_ok": True}
-        t1 = time.time()
-        try:
-            res = k.symbolic(P)
-        except Unsupported as e:
-            rec["status"] = "unsupported MIR construct: %s" % e
-            out["obligations"].append(rec)
-            continue
-        except Exception as e:  # noqa
-            rec["status"] = "encoder error: %r" % e
-            out["obligations"].append(rec)
-            continue
-        rec["paths"] = res.paths
-        rec["exec_s"] = round(res.exec_s, 2)
-        # translation validation: encoding vs the real function on concrete inputs
-        try:
-            cases = k.concrete_cases(seed())
+        rec["status"] = "encoder error: %r" % e
+        return rec
+    rec["paths"] = res.paths
+    rec["exec_s"] = round(res.exec_s, 2)
+    # translation validation: encoding vs the real function on concrete inputs
+    try:
+        cases = k.concrete_cases(sd)
+        if cases:
             nat = engine.native_batch(feats, k.native_name(), cases)
             mism = []
             for c, no in zip(cases, nat):
                 io = k.interp(P, c)
                 if io != no:
                     mism.append((c, io, no))
-            rec["validated"] = len(cases)
-            out["traces_validated"] += len(cases) - len(mism)
+            rec["validated"] = len(cases) - len(mism)
             if mism:
                 rec["status"] = "translator disagrees with the real function on %d concrete inputs, e.g. %r" % (len(mism), mism[0])
-                out["obligations"].append(rec)
-                continue
-        except Exception as e:  # noqa
-            rec["status"] = "translation validation failed to run: %r" % e
-            out["obligations"].append(rec)
+                return rec
+    except Exception as e:  # noqa
+        rec["status"] = "translation validation failed to run: %r" % e
+        return rec
+    results = engine.discharge(res.queries, jobs=solver_threads)
+    solvers = {}
+    bad = None
+    unknown = []
+    for q, r in results:
+        rec["queries"] += 1
+        rec["solver_s"] += r["solver_s"]
+        solvers[r["solver"] or "none"] = solvers.get(r["solver"] or "none", 0) + 1
+        if q.expect == "sat":
+            if r["status"] != "sat":
+                rec["witness_ok"] = False
             continue
-        results = engine.discharge(res.queries)
-        solvers = {}
-        bad = None
-        unknown = []
-        for q, r in results:
-            rec["queries"] += 1
-            rec["solver_s"] += r["solver_s"]
-            solvers[r["solver"] or "none"] = solvers.get(r["solver"] or "none", 0) + 1
-            if q.expect == "sat":
-                if r["status"] != "sat":
-                    rec["witness_ok"] = False
-                continue
-            if r["status"] == "sat" and bad is None:
-                bad = (q, r)
-            elif r["status"] not in ("unsat", "sat"):
-                unknown.append(q.qid + " " + str(r["tried"]))
-        rec["solver"] = ",".join("%s:%d" % kv for kv in sorted(solvers.items()))
-        rec["solver_s"] = round(rec["solver_s"], 2)
-        rec["wall_s"] = round(time.time() - t1, 2)
-        if bad:
-            q, r = bad
-            rec["status"] = "sat"
-            model = r["model"] or {}
-            rec["model_text"] = "%s: %s; model %s" % (q.qid, q.desc, json.dumps(model))
-            rec["desc"] = k.desc + " | failing query: " + q.desc
-            # replay against the real code
-            try:
-                no = engine.native(feats, k.native_name(), k.native_args(model))
-                rec["native_output"] = no
-                rec["replayed"] = bool(k.violates(model, no))
-            except Exception as e:  # noqa
-                rec["replayed"] = None
-                rec["native_output"] = "replay error %r" % e
-            d = os.path.join(REPLAY_DIR, prop)
-            os.makedirs(d, exist_ok=True)
-            rf = os.path.join(d, kid + ".json")
-            with open(rf, "w") as f:
-                json.dump({"property": prop, "kernel": kid, "features": list(feats), "model": model,
-                           "query": q.qid, "query_desc": q.desc, "native_output": rec.get("native_output")}, f, indent=1)
-            rec["replay_file"] = rf
-        elif unknown:
-            rec["status"] = "unknown (solver timeout/inconclusive) on %d queries: %s" % (len(unknown), "; ".join(unknown[:2]))
-        out["obligations"].append(rec)
+        if r["status"] == "sat" and bad is None:
+            bad = (q, r)
+        elif r["status"] not in ("unsat", "sat"):
+            unknown.append(q.qid + " " + str(r["tried"]))
+    rec["solver"] = ",".join("%s:%d" % kv for kv in sorted(solvers.items()))
+    rec["solver_s"] = round(rec["solver_s"], 2)
+    rec["wall_s"] = round(time.time() - t1, 2)
+    if bad:
+        q, r = bad
+        rec["status"] = "sat"
+        model = r["model"] or {}
+        rec["model_text"] = "%s: %s; model %s" % (q.qid, q.desc, json.dumps(model))
+        rec["desc"] = k.desc + " | failing query: " + q.desc
+        try:
+            no = engine.native(feats, k.native_name(), k.native_args(model))
+            rec["native_output"] = no
+            rec["replayed"] = bool(k.violates(model, no))
+        except Exception as e:  # noqa
+            rec["replayed"] = None
+            rec["native_output"] = "replay error %r" % e
+        d = os.path.join(REPLAY_DIR, prop)
+        os.makedirs(d, exist_ok=True)
+        rf = os.path.join(d, kid.replace("/", "_") + ".json")
+        with open(rf, "w") as f:
+            json.dump({"property": prop, "kernel": kid, "features": list(feats), "model": model,
+                       "query": q.qid, "query_desc": q.desc, "native_output": rec.get("native_output")}, f, indent=1)
+        rec["replay_file"] = rf
+    elif unknown:
+        rec["status"] = "unknown (solver timeout/inconclusive) on %d queries: %s" % (len(unknown), "; ".join(unknown[:2]))
+    return rec
+
+
+def run_obligations(prop, tier, plan):
+    """plan: {"features": (...), "kernels": [kernel ids], "workers": n}"""
+    import engine
+
+    out = {"obligations": [], "traces_validated": 0, "errors": []}
+    feats = tuple(plan.get("features", ()))
+    t0 = time.time()
+    try:
+        P = engine.dump_mir(feats)
+        engine.build_driver(feats)
+    except Exception as e:  # noqa
+        out["errors"].append("MIR dump / driver build failed: %s" % str(e)[-800:])
+        return out
+    log("[%s] engine S: MIR dumped from /repo in %.1fs (%d items)" % (prop, time.time() - t0, len(P.fns)))
+    os.makedirs(WORK, exist_ok=True)
+    pk = os.path.join(WORK, "mir-%s-%d.pickle" % ("-".join(feats) or "default", os.getpid()))
+    P._const_cache = {}
+    with open(pk, "wb") as f:
+        pickle.dump(P, f)
+    kids = list(plan["kernels"])
+    workers = max(1, min(int(plan.get("workers", 6)), len(kids)))
+    threads = max(2, 16 // workers)
+    try:
+        with cf.ProcessPoolExecutor(workers, initializer=_init_worker, initargs=(pk, feats)) as ex:
+            for rec in ex.map(_run_kernel, [(k, prop, seed(), threads) for k in kids]):
+                out["obligations"].append(rec)
+                out["traces_validated"] += rec.get("validated", 0)
+    finally:
+        try:
+            os.unlink(pk)
+        except OSError:
+            pass
     return out
 
 
@@ -111,7 +147,7 @@ def replay_file(prop, path):
     import kernels
     with open(path) as f:
         d = json.load(f)
-    k = kernels.KERNELS[d["kernel"]]
+    k = kernels.get(d["kernel"])
     feats = tuple(d.get("features", ()))
     no = engine.native(feats, k.native_name(), k.native_args(d["model"]))
     print("kernel %s inputs %s -> real code output: %s" % (d["kernel"], k.native_args(d["model"]), no))
